@@ -20,11 +20,11 @@ func nameIn(names ...string) func(*ssa.Function) bool {
 	for _, n := range names {
 		set[n] = true
 	}
-	return func(fn *ssa.Function) bool { return set[fn.Name()] }
+	return func(fn *ssa.Function) bool { return set[canonFnName(fn)] }
 }
 
 func equalsSide(fn *ssa.Function) bool {
-	switch fn.Name() {
+	switch canonFnName(fn) {
 	case "Equals", "hashCode", "ident", "sameContainerType", "dispatch", "combine":
 		return true
 	}
@@ -32,12 +32,12 @@ func equalsSide(fn *ssa.Function) bool {
 }
 
 func diffSide(fn *ssa.Function) bool {
-	n := fn.Name()
+	n := canonFnName(fn)
 	return strings.HasPrefix(n, "diff") || n == "Diff" || n == "newPathSetKeys" || n == "getPatchStrategy"
 }
 
 func patchSide(fn *ssa.Function) bool {
-	switch fn.Name() {
+	switch canonFnName(fn) {
 	case "patch", "patchAll", "Patch", "pathIdent", "ident":
 		return true
 	}
@@ -54,7 +54,7 @@ func listModePatch(fn *ssa.Function) bool {
 	return true
 }
 
-func setModePatch(fn *ssa.Function) bool { return !listModePatch(fn) || fn.Name() == "patchAll" }
+func setModePatch(fn *ssa.Function) bool { return !listModePatch(fn) || canonFnName(fn) == "patchAll" }
 
 var libOptExempt = map[string]string{
 	"lib.(jsonSet).diff→lib.(jsonSet).Equals":           "reachable only when SET/Setkeys and MERGE metadata are combined; C17 quantifies over single metadata values",
@@ -71,7 +71,7 @@ func init() {
 			v2 := w.Pkg(pathV2)
 			pf := newPatchFamily(w, v2, "v2")
 			ruleFWD(w, r, pf, []string{"pathAhead", "oldValues", "newValues", "strategy"})
-			ruleOptFwd(w, r, v2, "v2", "Option", patchSide, nil)
+			ruleOptFwd(w, r, v2, "v2", "Option", func(fn *ssa.Function) bool { return patchSide(fn) || equalsSide(fn) || diffSide(fn) }, nil)
 			rulePathFresh(w, r, v2, "v2")
 			ruleKinds(w, r, v2)
 			ruleProv(w, r, v2, "v2", v2Prov)
@@ -97,6 +97,8 @@ func init() {
 			rulePatchResult(w, r, pf, listModePatch)
 			ruleExpect(w, r, pf, listModePatch)
 			ruleDescend(w, r, pf)
+			ruleNotIgnored(w, r, pf, listModePatch)
+			ruleCreateOnlyMerge(w, r, pf, nil)
 			ruleEqSize(w, r, newNodeTypes(w, v2, "v2"))
 			r.Floor("R-EXPECT", 12)
 			r.Floor("R-FWD", 80)
@@ -117,6 +119,7 @@ func init() {
 			ruleIdentUse(w, r, v2, "v2")
 			ruleDispatchTable(w, r, v2)
 			ruleEqSize(w, r, nt)
+			ruleHashEq(w, r, nt)
 			ruleOptFwd(w, r, v2, "v2", "Option", equalsSide, nil)
 			r.Floor("R-TYPEGUARD", 10)
 			r.Floor("R-HASHDOM", 10)
@@ -229,6 +232,8 @@ func init() {
 			ruleHashMove(w, r, nt)
 			ruleHashCover(w, r, nt)
 			ruleEqSize(w, r, nt)
+			ruleHashEq(w, r, nt)
+			ruleIdentUse(w, r, v2, "v2")
 			ruleObjRecurse(w, r, v2, "v2")
 			ruleNoEmpty(w, r, v2, "v2", "Remove", "Add")
 			ruleHashDom(w, r, nt, map[string]bool{"jsonString": true, "jsonNumber": true, "jsonBool": true, "jsonNull": true, "jsonList": true, "jsonObject": true})
@@ -249,13 +254,14 @@ func init() {
 			rulePatchResult(w, r, pf, setModePatch)
 			ruleFWD(w, r, pf, []string{"pathAhead", "before", "oldValues", "newValues", "after", "strategy"})
 			ruleOptFwd(w, r, v2, "v2", "Option", func(fn *ssa.Function) bool {
-				return patchSide(fn) && !listModePatch(fn) || fn.Name() == "pathIdent" || fn.Name() == "ident"
+				return patchSide(fn) && !listModePatch(fn) || canonFnName(fn) == "pathIdent" || canonFnName(fn) == "ident"
 			}, nil)
 			ruleKinds(w, r, v2)
 			ruleIdentUse(w, r, v2, "v2")
 			ruleIdentProv(w, r, v2, "v2")
 			ruleSearchAll(w, r, pf, setModePatch)
 			ruleKeyBind(w, r, pf)
+			ruleNotIgnored(w, r, pf, setModePatch)
 			r.Floor("R-EXPECT", 6)
 		}})
 }
@@ -273,6 +279,7 @@ func init() {
 			ruleOptFwd(w, r, v2, "v2", "Option", diffSide, nil)
 			ruleSetMember(w, r, v2, "v2", "Remove", "Add")
 			ruleBagCount(w, r, v2, "v2", "Remove", "Add")
+			ruleWholeContainer(w, r, v2, "v2", "Add")
 			ruleWholeObject(w, r, v2, "v2", "Add")
 			ruleObjRecurse(w, r, v2, "v2")
 			nt := newNodeTypes(w, v2, "v2")
@@ -351,6 +358,7 @@ func init() {
 			rulePrepend(w, r, v2)
 			pf := newPatchFamily(w, v2, "v2")
 			ruleFWD(w, r, pf, []string{"before", "after"})
+			ruleExpect(w, r, pf, listModePatch)
 			rulePureEntries(w, r, v2, pf, map[string]bool{"Diff.RenderPatch": true})
 			r.Floor("R-FWD", 25)
 		}})
@@ -362,6 +370,7 @@ func init() {
 			v2 := w.Pkg(pathV2)
 			ruleMergeHunkDiff(w, r, v2)
 			ruleVoidArg(w, r, v2)
+			ruleHashEq(w, r, newNodeTypes(w, v2, "v2"))
 			ruleMergeRender(w, r, v2)
 			rulePathFresh(w, r, v2, "v2")
 			ruleDeleteVoid(w, r, newPatchFamily(w, v2, "v2"))
@@ -377,6 +386,7 @@ func init() {
 			pf := newPatchFamily(w, v2, "v2")
 			ruleFWD(w, r, pf, []string{"newValues", "strategy", "pathAhead"})
 			ruleDescend(w, r, pf)
+			ruleNotIgnored(w, r, pf, listModePatch)
 			ruleDeleteVoid(w, r, pf)
 			rulePathFresh(w, r, v2, "v2")
 		}})
@@ -410,6 +420,8 @@ func init() {
 			ruleIdentUse(w, r, lib, "lib")
 			ruleObjRecurse(w, r, lib, "lib")
 			ruleDeleteVoid(w, r, pf)
+			ruleNotIgnored(w, r, pf, nil)
+			rulePatchResult(w, r, pf, nil)
 			ruleScanErr(w, r, lib, "lib")
 			r.Floor("R-FWD(lib)", 60)
 			r.Floor("R-OPTFWD(lib)", 80)
